@@ -128,6 +128,50 @@ def opsOf (q : List Char) : Option (List Operator) :=
   | .accept q => some q.ops
   | _ => none
 
+/-! ### keywords (`kw`, repo commit 0324001) -/
+
+theorem stripPrefix_append (p r : List Char) : Text.stripPrefix? p (p ++ r) = some r := by
+  induction p with
+  | nil => simp [Text.stripPrefix?]
+  | cons c cs ih => simp [Text.stripPrefix?, ih]
+
+theorem tag_append (w : String) (cs rest : List Char) (hw : w.toList = cs) (e : Nat) :
+    tag w (cs ++ rest) e = .ok () rest e := by
+  simp [tag, hw, stripPrefix_append]
+
+/-- what follows a keyword is not an identifier character (blank, punctuation, end of input) -/
+def Boundary (rest : List Char) : Prop := ∀ c r, rest = c :: r → isIdentCh c = false
+
+theorem kw_unfold (w : String) (i : List Char) (e : Nat) :
+    kw w i e = (P.bind' (tag w) fun a => P.bind' (notP (satisfy isIdentCh)) fun _ => P.pure' a) i e := rfl
+
+/-- a keyword at a word boundary is recognised and consumes exactly the word -/
+theorem kw_boundary (w : String) (cs rest : List Char) (hw : w.toList = cs) (e : Nat)
+    (h : Boundary rest) : kw w (cs ++ rest) e = .ok () rest e := by
+  rw [kw_unfold]
+  simp only [P.bind', tag_append w cs rest hw]
+  cases rest with
+  | nil => simp [notP, satisfy, P.pure']
+  | cons c r =>
+    have hc := h c r rfl
+    simp [notP, satisfy, hc, P.pure']
+
+/-- **a keyword directly followed by an identifier character is not that keyword**, whatever
+follows: the error sits at the offending character -/
+theorem kw_glued (w : String) (cs : List Char) (hw : w.toList = cs) (c : Char) (rest : List Char)
+    (e : Nat) (hc : isIdentCh c = true) : kw w (cs ++ c :: rest) e = .fail (c :: rest) e := by
+  rw [kw_unfold]
+  simp [P.bind', tag_append w cs (c :: rest) hw, notP, satisfy, hc]
+
+/-- a keyword never matches a text that does not start with the word -/
+theorem kw_mismatch (w : String) (i : List Char) (e : Nat)
+    (h : Text.stripPrefix? w.toList i = none) : kw w i e = .fail i e := by
+  rw [kw_unfold]
+  simp [P.bind', tag, h]
+
+example : Boundary [] ∧ Boundary q!" by x" ∧ Boundary q!"(x)" ∧ Boundary q!"|limit 1" := by
+  refine ⟨?_, ?_, ?_, ?_⟩ <;> intro c r h <;> simp at h <;> (try (obtain ⟨rfl, _⟩ := h; decide))
+
 end Ag.LangEq
 
 example : q!"a|b" = ['a', '|', 'b'] := rfl
